@@ -79,6 +79,14 @@ func vpH_C13_teardown_gs() {
 	}
 	gs.score.refreshScores()
 
+	vpAssertGone(w, x)
+	vpCover(w.mesh[0] && !inboundFirst && lateGraft, "mesh member, late GRAFT on the surviving inbound stream")
+	vpCover(inboundFirst && w.proto[0] == 3, "v1.2 peer, inbound closes first")
+}
+
+// vpAssertGone: x occurs in none of the node's per-peer structures.
+func vpAssertGone(w *vpWorld, x peer.ID) {
+	gs, ps := w.n.gs, w.n.ps
 	_, inPeers := ps.peers[x]
 	_, inTopics := ps.topics[vpT0][x]
 	vpAssert(!inPeers && !inTopics, "a departed peer is absent from the outbound queues and from topic membership")
@@ -107,6 +115,183 @@ func vpH_C13_teardown_gs() {
 	_, ipl := gs.score.peerIPs["1.2.3.4"][x]
 	vpAssert(!ipl, "the IP-colocation bookkeeping of a departed peer is dropped with its statistics")
 	vpAssert(!w.n.h.cm.IsProtected(x, ""), "no connection-manager protection installed by pubsub survives the peer's departure")
-	vpCover(w.mesh[0] && !inboundFirst && lateGraft, "mesh member, late GRAFT on the surviving inbound stream")
-	vpCover(inboundFirst && w.proto[0] == 3, "v1.2 peer, inbound closes first")
+}
+
+// stream_churn: the peer's OUTBOUND stream dies while its connection stays up (a transient reset, or a hostile peer
+// that keeps resetting our stream) with an ARBITRARY reconnect-backoff history (none, 0..5 earlier attempts, any age and
+// delay): the real handleDeadPeers either respawns the writer (fresh OPEN queue registered, router told that the old
+// stream closed) or gives up on the peer (maximum attempts reached: no queue registered, router told just the same).
+// Never is a CLOSED queue left registered (a later reply to the peer would panic in the event loop), never does the
+// router keep a peer the node has no queue for. Afterwards an RPC from the peer on its inbound stream is handled without
+// panic, the peer disconnects for good, retention passes, and nothing of it is left.
+func vpH_C13_stream_churn() {
+	vpOpt("unwind", 10)
+	w := vpNewWorld(vpWorldCfg{P: 2, params: vpSmallParams(), scoring: true})
+	gs, ps := w.n.gs, w.n.ps
+	x := w.peers[0]
+	vpAssume(w.up[0])
+	proto := vpProtos[w.proto[0]]
+	if w.mesh[0] {
+		gs.tagTracer.Graft(x, vpT0)
+	}
+	hasHist, attempts := vpBool("has_backoff_history"), vpInt("earlier_attempts", 0, 5)
+	dur, age := vpInt("last_delay_ms", 0, 20000), vpInt("age_of_last_attempt_s", 0, 1200)
+	if hasHist {
+		ps.deadPeerBackoff.info[x] = &backoffHistory{duration: time.Duration(dur) * time.Millisecond, lastTried: w.now.Add(-time.Duration(age) * time.Second), attempts: attempts}
+	}
+	qOld := w.q[0]
+	// the stream dies, the connection stays
+	ps.peerDeadPend[x] = struct{}{}
+	ps.handleDeadPeers()
+	respawned := vpPendingOrNative(ps, x)
+	vpDropPending() // (the respawn goroutine is still sleeping out its backoff delay)
+	qNew, registered := ps.peers[x]
+	_, inRouter := gs.peers[x]
+	_, inMesh := gs.mesh[vpT0][x]
+	_, inFan := gs.fanout[vpT0][x]
+	vpAssert(qOld.closed, "the queue of the dead stream is closed")
+	vpAssert(!inRouter && !inMesh && !inFan, "the router is told that the outbound stream closed, whether or not the writer is respawned")
+	if registered {
+		vpAssert(qNew != qOld && !qNew.closed, "a queue that stays registered for a still-connected peer is a fresh open one, never the closed one")
+		vpAssert(respawned, "a registered queue has a writer being respawned for it")
+	}
+	expired := age*1000 > int(TimeToLive/time.Millisecond)
+	giveUp := hasHist && !expired && attempts >= MaxBackoffAttempts
+	vpAssert(registered == !giveUp, "the writer is respawned unless the peer used up its reconnect attempts within the backoff lifetime")
+	// the peer keeps talking on its inbound stream: replies must not hit a closed queue
+	topic := vpT0
+	panicked := vpPanics(func() {
+		ps.handleIncomingRPC(&RPC{RPC: pb.RPC{Control: &pb.ControlMessage{
+			Ihave: []*pb.ControlIHave{{TopicID: &topic, MessageIDs: []string{"Z1"}}},
+			Graft: []*pb.ControlGraft{{TopicID: &topic}}}}, from: x})
+	})
+	vpAssert(!panicked, "an RPC from a peer whose outbound stream was reset does not crash the event loop")
+	// the peer leaves for good
+	w.n.h.net.connected[x] = false
+	ps.peerDeadPend[x] = struct{}{}
+	ps.handleDeadPeers()
+	ps.onClosedIncomingStream(x, proto)
+	vpAdvance(gs.params.PruneBackoff + gs.params.UnsubscribeBackoff + 4*GossipSubHeartbeatInterval + time.Hour)
+	gs.heartbeatTicks = 14
+	gs.heartbeat()
+	for i := 0; i < gs.params.IDontWantMessageTTL; i++ {
+		gs.clearIDontWantCounters()
+	}
+	gs.score.refreshScores()
+	vpAssertGone(w, x)
+	vpCover(giveUp && w.mesh[0], "mesh member given up after the maximum number of respawns")
+	vpCover(registered && hasHist && attempts == 3, "fourth respawn")
+}
+
+// vpPendingOrNative: in the engine, was a goroutine started (the respawn)? Natively the question is answered by the
+// registered queue itself (a goroutine cannot be observed), so the assertion that uses it is engine-side only.
+func vpPendingOrNative(ps *PubSub, x peer.ID) bool {
+	if vpSymbolic() {
+		return vpPending() > 0
+	}
+	_, ok := ps.peers[x]
+	return ok
+}
+
+// ip_index: the IP-colocation index stays an exact inverse of the per-peer address lists — x is listed under an address
+// exactly when that address is in x's own statistics — across ONE real operation from an arbitrary consistent state
+// (x connected or retained after a disconnect, tracked under no address / A / B, possibly sharing A with another peer;
+// the address its live connection reports now is a solver variable and may differ from the tracked one: a peer that
+// comes back from another address, or whose address changes between refreshes): new outbound stream, periodic address
+// refresh, stream closed (retain or drop by score), retention expiry. Step-inductive: covers connect / disconnect /
+// reconnect histories of any length; at the end the peer leaves for good and is listed nowhere.
+func vpH_C13_ip_index() {
+	vpOpt("unwind", 8)
+	w := vpNewWorld(vpWorldCfg{P: 2, params: vpSmallParams(), scoring: true, noFanout: true})
+	sc := w.n.gs.score
+	net := w.n.h.net
+	x, y := w.peers[0], w.peers[1]
+	addrs := []string{"", "1.2.3.4", "5.6.7.8"}
+	// arbitrary consistent pre-state for x
+	tracked := vpInt("tracked_address", 0, 2)
+	connected := vpBool("x_connected")
+	retained := vpBool("x_retained_after_disconnect")
+	vpAssume(connected == w.up[0])
+	st, has := sc.peerStats[x]
+	if !connected {
+		if retained {
+			st = &peerStats{topics: map[string]*topicStats{}, expire: w.now.Add(time.Duration(vpInt("retention_left_s", -10, 10)) * time.Second)}
+			sc.peerStats[x] = st
+			has = true
+		} else {
+			delete(sc.peerStats, x)
+			has = false
+		}
+	}
+	sc.peerIPs = map[string]map[peer.ID]struct{}{}
+	if vpBool("y_shares_address_A") {
+		sc.peerIPs[addrs[1]] = map[peer.ID]struct{}{y: {}}
+		if sy, ok := sc.peerStats[y]; ok {
+			sy.ips = []string{addrs[1]}
+		} else {
+			sc.peerStats[y] = &peerStats{topics: map[string]*topicStats{}, connected: true, ips: []string{addrs[1]}}
+		}
+	}
+	if has && tracked > 0 {
+		st.ips = []string{addrs[tracked]}
+		if sc.peerIPs[addrs[tracked]] == nil {
+			sc.peerIPs[addrs[tracked]] = map[peer.ID]struct{}{}
+		}
+		sc.peerIPs[addrs[tracked]][x] = struct{}{}
+	} else if has {
+		st.ips = nil
+	}
+	// what the network reports for x now
+	now := vpInt("address_reported_now", 0, 2)
+	net.ip[x] = addrs[now]
+	inv := func(what string) {
+		s, ok := sc.peerStats[x]
+		for k := 1; k <= 2; k++ {
+			_, listed := sc.peerIPs[addrs[k]][x]
+			own := false
+			if ok {
+				for _, ip := range s.ips {
+					own = own || ip == addrs[k]
+				}
+			}
+			vpAssert(listed == own, "x is listed under an address in the colocation index exactly when the address is in its own statistics ("+what+")")
+		}
+	}
+	switch vpInt("op", 0, 3) {
+	case 0: // (re)connect: a new outbound stream
+		net.connected[x] = true
+		sc.OnNewOutboundStream(x, GossipSubID_v11)
+		s := sc.peerStats[x]
+		vpAssert(s != nil && s.connected, "connected")
+		for k := 1; k <= 2; k++ {
+			_, listed := sc.peerIPs[addrs[k]][x]
+			vpAssert(listed == (k == now), "after a new outbound stream x is listed under exactly the address it is connected from now, not under one it used before")
+		}
+	case 1:
+		sc.refreshIPs()
+		if connected {
+			for k := 1; k <= 2; k++ {
+				_, listed := sc.peerIPs[addrs[k]][x]
+				vpAssert(listed == (k == now), "after an address refresh a connected peer is listed under exactly its current address")
+			}
+		}
+	case 2:
+		sc.OnClosedOutboundStream(x)
+	case 3:
+		sc.refreshScores()
+	}
+	inv("after the step")
+	// x leaves for good; retention passes
+	net.connected[x] = false
+	sc.OnClosedOutboundStream(x)
+	vpAdvance(sc.params.RetainScore + time.Hour)
+	sc.refreshScores()
+	_, left := sc.peerStats[x]
+	vpAssert(!left, "statistics dropped after retention")
+	for k := 1; k <= 2; k++ {
+		_, listed := sc.peerIPs[addrs[k]][x]
+		vpAssert(!listed, "a departed peer is listed under no address once its statistics are dropped")
+	}
+	vpCover(!connected && retained && tracked == 1 && now == 2, "retained peer comes back from another address")
+	vpCover(connected && tracked == 1 && now == 0, "address lost between refreshes")
 }
